@@ -7,6 +7,7 @@ import GrVerif.Model.CodeLoad
 import GrVerif.Model.RulesLoad
 import GrVerif.Model.GlyphLoad
 import GrVerif.Model.FaceLoad
+import GrVerif.Model.GlyphGfx
 namespace Driver.Loader
 open GrVerif.Loader Driver
 
@@ -204,12 +205,35 @@ def stepFace (ws : List String) : String :=
     | _, _, _, _, _, _, _, _ => "bad-op"
   | _ => "bad-op"
 
+/-- `gfx <indexToLocFormat> <numLongHorMetrics> <loca hex> <glyf hex|-> <hmtx hex> <gid,…>` : the graphics half of `read_glyph` -/
+def stepGfx (ws : List String) : String :=
+  match ws with
+  | [fmt, nl, h1, h2, h3, gids] =>
+    match fmt.toNat?, nl.toNat?, parseHexUnits 2 h1, parseHexUnits 2 h2, parseHexUnits 2 h3 with
+    | some fmt, some nl, some loca, some glyf, some hmtx =>
+      -- a `head` and an `hhea` that say just this
+      let head := List.replicate 50 0 ++ [fmt / 256, fmt % 256, 0, 0]
+      let hhea := List.replicate 34 0 ++ [nl / 256, nl % 256]
+      let gl := if glyf.isEmpty then none else some (glyf.toList, loca.toList)
+      let outs := ((gids.splitOn ",").filterMap String.toNat?).map fun gid =>
+        match readGlyphGfx head hhea hmtx.toList gl gid with
+        | .error _ => "fault"
+        | .ok none => "F"
+        | .ok (some (bb, adv)) =>
+          let b := match bb with | some (a, b, c, d) => s!"{a},{b},{c},{d}" | none => "-"
+          let a := match adv with | some v => toString v | none => "-"
+          s!"{b}/{a}"
+      String.intercalate " " outs
+    | _, _, _, _, _ => "bad-op"
+  | _ => "bad-op"
+
 def step (line : String) : String :=
   match words line with
   | "classmap" :: rest => stepClassMap rest
   | "code" :: rest => stepCode rest
   | "glyphs" :: rest => stepGlyphs rest
   | "face" :: rest => stepFace rest
+  | "gfx" :: rest => stepGfx rest
   | "silf" :: rest => stepSilf rest
   | "silftable" :: rest => stepSilfTable rest
   | "sfnt" :: rest => stepSfnt rest
